@@ -93,7 +93,7 @@ fn limits() -> Vec<SVal> {
         SVal::F32(f32::NAN), SVal::F32(f32::INFINITY), SVal::F64(f64::MAX), SVal::F64(-0.0), SVal::F64(f64::NAN),
         SVal::F64(f64::NEG_INFINITY), SVal::F64(5e-324), SVal::Char('\u{0}'), SVal::Char('\u{10ffff}'), SVal::Str(String::new()),
         SVal::Bytes(vec![]), SVal::Bytes(vec![0, 255]), SVal::None, SVal::Unit, SVal::UnitStruct("T".into()),
-        SVal::UnitVariant("E".into(), 0, "A".into()), SVal::Fail("boom".into()),
+        SVal::UnitVariant("E".into(), 0, "A".into()), SVal::Fail("boom".into()), SVal::Ip([127, 0, 0, 1]),
         SVal::Seq(vec![], true), SVal::Seq(vec![], false), SVal::Tuple(vec![]), SVal::Map(vec![], false),
         SVal::Struct("T".into(), vec![]),
     ];
